@@ -42,7 +42,7 @@ ITEMS = {
     'vector_config': (['C11', 'C02'], 'vector Config::validate'),
     'vector_root': (['C04', 'C05'], 'compute_root_from_queries / hash_friendly_unfriendly'),
     'vector_decommit': (['C04', 'C05', 'C07'], 'vector_commitment_decommit'),
-    'table_decommit': (['C05'], 'table_decommit / generate_vector_queries'),
+    'table_decommit': (['C05', 'C06', 'C07'], 'table_decommit / generate_vector_queries'),
     'fri_group': (['C06'], 'get_fri_group'),
     'fri_formula': (['C06'], 'fri_formula'),
     'next_layer': (['C06', 'C07'], 'compute_next_layer / compute_coset_elements'),
